@@ -567,6 +567,8 @@ static void appOps(World *w, const ThreadProg &tp, std::vector<std::thread> *oth
   }
 }
 
+static int g_gcThreshold = 0; // per case ("cap/gc" in the case line): Transport's syncBufferGcThreshold, 0 = library default
+
 static std::string runOne(int cap, const std::vector<ThreadProg> &prog, const vf::Options &opt, bool emitSched)
 {
   auto w = std::make_shared<World>();
@@ -575,6 +577,7 @@ static std::string runOne(int cap, const std::vector<ThreadProg> &prog, const vf
   w->tr.add(vf::Ev("Begin").i("cap", cap));
   vf::Options o = opt;
   o.maxSteps = 30000;
+  o.pointAfterUnlock = true;
   vf::reset(o);
   vf::spawn("main",
             [w, cap]()
@@ -582,6 +585,7 @@ static std::string runOne(int cap, const std::vector<ThreadProg> &prog, const vf
               vf::point("construct");
               TransportConfig cfg;
               cfg.maxSyncReceiveBuffer = (std::size_t)cap;
+              if (g_gcThreshold > 0) cfg.syncBufferGcThreshold = (std::size_t)g_gcThreshold;
               auto eng = std::make_unique<ScriptEngine>(w.get());
               w->eng = eng.get();
               w->owner = iora::network::test::TransportEngineInjector::withEngine(std::move(eng), cfg);
@@ -657,6 +661,7 @@ static int cmdRun(int argc, char **argv)
   struct Case
   {
     int cap;
+    int gc = 0;
     std::vector<ThreadProg> prog;
     vf::Options opt;
   };
@@ -667,12 +672,17 @@ static int cmdRun(int argc, char **argv)
     if (parts.size() < 3) continue;
     Case c;
     c.cap = atoi(parts[0].c_str());
+    c.gc = parts[0].find('/') != std::string::npos ? atoi(parts[0].substr(parts[0].find('/') + 1).c_str()) : 0;
     c.prog = parseProg(parts[1]);
     c.opt = parsePolicy(vf::words(parts[2]));
     cases.push_back(std::move(c));
   }
   auto res = vf::runMany((int)cases.size(), par, 60.0, std::string(argv[3]) + ".d", argv[3],
-                         [&](int i) { return runOne(cases[i].cap, cases[i].prog, cases[i].opt, false); });
+                         [&](int i)
+                         {
+                           g_gcThreshold = cases[i].gc;
+                           return runOne(cases[i].cap, cases[i].prog, cases[i].opt, false);
+                         });
   printf("executions=%d crashed=%d timedout=%d\n", res.executions, res.crashed, res.timedOut);
   return 0;
 }
@@ -682,6 +692,7 @@ static int cmdDfs(int argc, char **argv)
   if (argc < 6) return 2;
   auto parts = vf::split(argv[2], '|');
   int cap = atoi(parts[0].c_str());
+  g_gcThreshold = parts[0].find('/') != std::string::npos ? atoi(parts[0].substr(parts[0].find('/') + 1).c_str()) : 0;
   auto prog = parseProg(parts[1]);
   int bound = atoi(argv[3]);
   int maxExec = atoi(argv[4]);
